@@ -211,6 +211,23 @@ def scopeWitnessCheck (r : BuildResult) : Bool :=
      | _ => false)
   | _ => false
 
+/-- What `scopeWitnessCheck` says about the element `p:b` at path `0.1`. -/
+theorem scopeWitnessCheck_spec {r : BuildResult} (h : scopeWitnessCheck r = true) :
+    ∃ p, r = .ok p ∧ (∃ id ks, p.tree.at? [0, 1] = some (.node (.element id) ks) ∧ p.env.localName id = ['b']) ∧
+      (scopeStrAt p [0, 1]).take 2 = [[(['p'], ['w'])], [(['p'], ['u'])]] := by
+  unfold scopeWitnessCheck at h
+  split at h
+  · rename_i p
+    simp only [Bool.and_eq_true] at h
+    obtain ⟨⟨⟨⟨⟨h1, _⟩, _⟩, _⟩, h5⟩, _⟩ := h
+    refine ⟨p, rfl, ?_, by simpa using h1⟩
+    split at h5
+    · rename_i id ks hat
+      simp only [Bool.and_eq_true, beq_iff_eq] at h5
+      exact ⟨id, ks, hat, h5.2⟩
+    · cases h5
+  · cases h
+
 open Witness in
 theorem interner_new_env : Interner.new.env = Env.fresh := ofInterner_new
 
